@@ -20,6 +20,12 @@ C07 — line-protocol driver of the models (core only).  One op per line, one an
   file <description>             → ok                          (whole-file round trip through a real shard: no
                                    model; the harness's spec diff decides, any failure shows as a diff)
   booldec <hex bytes>            → bits <0/1 string | -> | err (Boolean.Decoding)
+  colseg <ty> <pos> <z1> <z2> <len> <nil> <bmOff> <bitmap> <val> <offs>
+                                 → seg <hex>[+n] | err         (one column segment as the column builder
+                                   appends it: one-value form, or column header + block; ty ∈ i f b s t,
+                                   z1/z2 = observed zstd|snappy / gorilla lengths, `x` = gorilla refuses)
+  colsegdec <ty> <segment> <orc> → col <len> <nil> <rows> | err (decodeColumnData / appendTimeColumnData and
+                                   the rows a reader of the ColVal sees; orc = decompressed payload or `-`)
 
 `zlen` is the observed length of the zstd (snappy, …) payload for the block's raw bytes: the
 library output is opaque to the model, only its length takes part in the mode decision.  In a
@@ -31,6 +37,7 @@ import OG.C07.Bool
 import OG.C07.FloatFrame
 import OG.C07.Wal
 import OG.C07.StringFrame
+import OG.C07.ColSeg
 
 namespace OG.C07
 
@@ -196,6 +203,101 @@ def stepStr (ty clen : Nat) (strs : List Bytes) : String :=
   | t :: _ => if t.toNat / 16 ≠ OG.Gen.C07.stringUncompressed then showFrame 9 bs else showBytes bs
   | [] => showBytes bs
 
+/-! ### column segments -/
+
+def hexOrDash (bs : Bytes) : String := if bs.isEmpty then "-" else bytesHex bs
+
+def ctyOf (s : String) : Option CTy :=
+  match s with
+  | "i" => some .int | "f" => some .float | "b" => some .bool | "s" => some .str | "t" => some .time
+  | _ => none
+
+/-- a segment as both sides print it: hex up to the start of a library payload, then `+<length>`. -/
+def showSeg (ty : CTy) (seg : Bytes) : String :=
+  match seg with
+  | [] => "seg -"
+  | t :: _ =>
+    if OG.Gen.C07.isBlockOne t.toNat then "seg " ++ bytesHex seg
+    else
+      let h := if OG.Gen.C07.isBlockFull t.toNat || OG.Gen.C07.isBlockEmpty t.toNat then 5
+        else
+          let n := unbe ((seg.drop 1).take 4)
+          if seg.length < 5 ∨ 1 + 4 + n + 8 > seg.length then seg.length else 1 + 4 + n + 8
+      let inner := seg.drop h
+      match inner with
+      | [] => "seg " ++ bytesHex seg
+      | m :: _ =>
+        let mode := m.toNat / 16
+        let keep : Option Nat :=
+          match ty with
+          | .int => if mode = OG.Gen.C07.intCompressZSTD then some 9 else none
+          | .time => if mode = OG.Gen.C07.timeCompressSnappy then some 9 else none
+          | .float => if mode = OG.Gen.C07.floatCompressedSnappy ∨ mode = OG.Gen.C07.floatCompressedGorilla
+              then some 1 else none
+          | .str => if mode ≠ OG.Gen.C07.stringUncompressed then some 9 else none
+          | .bool => none
+        match keep with
+        | some k =>
+          if inner.length < k then "seg " ++ bytesHex seg
+          else "seg " ++ bytesHex (seg.take (h + k)) ++ "+" ++ toString (inner.length - k)
+        | none => "seg " ++ bytesHex seg
+
+def parseOffs (s : String) : Option (List Nat) :=
+  if s == "-" then some [] else (s.splitOn ",").mapM (·.toNat?)
+
+def stepColSeg (toks : List String) : String :=
+  match toks with
+  | [ty, pos, z1, z2, len, nil, off, bm, val, offs] =>
+    match ctyOf ty, pos.toNat?, z1.toNat?, len.toNat?, nil.toNat?, off.toNat?, hexBytes? bm, hexBytes? val,
+        parseOffs offs with
+    | some ty, some pos, some z1, some len, some nil, some off, some bm, some val, some offs =>
+      let g : Option (Option Nat) := if z2 == "x" || z2 == "-" then some none else z2.toNat?.map some
+      match g with
+      | none => "bad-op"
+      | some g =>
+        let L : Libs :=
+          { P := nativePreds, zstd := dummy z1, unzstd := fun _ => none, snappy := dummy z1,
+            unsnappy := fun _ => none, gorilla := fun _ => g.map fun n => List.replicate n 0,
+            ungorilla := fun _ => none, strTy := OG.Gen.C07.stringCompressedSnappy, strComp := dummy z1,
+            strDecomp := fun _ _ => none }
+        let c : ColVal := { val := val, offs := offs, bitmap := bm, bmOff := off, len := len, nilCount := nil }
+        match encodeColSeg L ty pos c with
+        | none => "err"
+        | some bs => showSeg ty bs
+    | _, _, _, _, _, _, _, _, _ => "bad-op"
+  | _ => "bad-op"
+
+def showCells {α : Type} (f : α → String) (rows : List (Option α)) : String :=
+  if rows.isEmpty then "-"
+  else ",".intercalate (rows.map fun r => match r with | none => "_" | some v => f v)
+
+def stepColSegDec (toks : List String) : String :=
+  match toks with
+  | [ty, seg, orc] =>
+    match ctyOf ty, hexBytes? seg with
+    | some ty, some seg =>
+      let o : Option (Option Bytes) := if orc == "-" then some none else (hexBytes? orc).map some
+      match o with
+      | none => "bad-op"
+      | some o =>
+        let L : Libs :=
+          { P := nativePreds, zstd := id, unzstd := fun _ => o, snappy := id, unsnappy := fun _ => o,
+            gorilla := fun _ => none, ungorilla := fun _ => o.map wordsOf,
+            strTy := OG.Gen.C07.stringCompressedSnappy, strComp := id, strDecomp := fun _ _ => o }
+        match decodeColSeg L ty seg with
+        | none => "err"
+        | some c =>
+          let rows : Option String :=
+            match ty with
+            | .bool => (boolRows c).map (showCells fun b => if b then "1" else "0")
+            | .str => (strRows c).map (showCells hexOrDash)
+            | _ => (wordRows c).map (showCells fun w => natHex w.toNat)
+          match rows with
+          | none => "err view"
+          | some r => "col " ++ toString c.len ++ " " ++ toString c.nilCount ++ " " ++ r
+    | _, _ => "bad-op"
+  | _ => "bad-op"
+
 def step (line : String) : String :=
   let (op, rest) := splitOp line
   match op with
@@ -284,6 +386,8 @@ def step (line : String) : String :=
         "strs " ++ (if data.isEmpty then "-" else bytesHex data) ++ " "
           ++ (if offs.isEmpty then "-" else ",".intercalate (offs.map toString))
   | "file" => "ok"
+  | "colseg" => stepColSeg (rest.splitOn " ")
+  | "colsegdec" => stepColSegDec (rest.splitOn " ")
   | "bool" =>
     if rest == "-" then showBytes (encodeBool [])
     else if rest.any (fun c => c ≠ '0' ∧ c ≠ '1') then "bad-op"
